@@ -3,7 +3,7 @@ import numpy as np
 from hypothesis import strategies as st
 
 import pytenet as ptn
-from core import Part, require, known_listed
+from core import Part, require, known_listed, Violation
 from lanczos_monitor import LanczosMonitor
 from gen_dyn import ham_and_state, complete_case, ham_desc, complete_manifold, build_ham, dense_ham, dense_state, sector_mask, gauge_edit
 from gen_qn import build_mps
@@ -16,7 +16,7 @@ RULE = ('cases = (Hermitian MPO as in C08 with and without charges, L 2..5, d 2.
 KEY_F5 = 'dmrg-local-eigensolver-past-undetected-lanczos-breakdown'
 
 ASSUME = ['known finding F5 at its DMRG call site: when a local Lanczos iteration of the run continued past an undetected breakdown (observed at run time by wrapping pytenet.krylov.lanczos_iteration and '
-          'determining the Krylov dimension independently) the reported energies are not reliable: the energy clauses are excluded and counted on exactly those runs, all structural clauses stay enforced',
+          'determining the Krylov dimension independently) the reported energies are not reliable: every clause is judged on every run, and a failing energy clause (or an abort of the sweep) is attributed to the finding - excluded and counted - only on runs that showed this signature; all structural clauses stay enforced',
           'convergence to the sector ground energy is only judged where it is a theorem for a Krylov-based local solver: complete manifold saturated on one side at every bond, enough '
           'iterations, and a sector block of H that is irreducible (connected); for reducible blocks the run must end in an exact eigenstate of H; a start state (nearly) orthogonal to the ground space is not judged',
           'sector = dense basis states with the total charge of the start state; numpy.linalg.eigvalsh trusted', 'monotonicity of two-site DMRG only judged for tol_split = 0',
@@ -71,26 +71,36 @@ def check_dmrg(case, rec):
                     rec.excluded_known += 1
                     raise Excluded()
                 raise
-        energy_ok = True
+        # energy clauses are judged on every run; a failing energy clause is attributed to the known finding only if the F5 signature
+        # was observed during this very run (runs with the signature that satisfy every clause are ordinary passes)
+        excused = []
         if mon.past_breakdown:
             rec.label('lanczos_past_breakdown')
-            if known_listed(ID, KEY_F5):
-                rec.excluded_known += 1
-                energy_ok = False
+
+        def ereq(cond, msg, **info):
+            if cond:
+                return
+            if mon.past_breakdown and known_listed(ID, KEY_F5):
+                excused.append(msg)
+                return
+            require(False, msg, **info)
         en = np.asarray(en)
         require(en.shape == (sweeps,), label + ': wrong shape of the energy array', shape=en.shape)
         require(np.all(np.isfinite(en)) and np.isrealobj(en), label + ': energies not finite real numbers')
         v1 = dense_state(psi)
         require(abs(np.linalg.norm(v1) - 1) <= 1e-10, label + ': returned state is not normalized', norm=float(np.linalg.norm(v1)))
         E1 = float(np.vdot(v1, Hd @ v1).real)
-        if tol_split == 0 and energy_ok:
-            require(abs(E1 - en[-1]) <= 1e-9 * scale, label + ': energy of the returned state differs from the last reported energy', state=E1, reported=float(en[-1]))
-        require((not energy_ok) or np.all(en >= E_gs - 1e-9 * scale), label + ': reported energy below the exact ground state energy of the sector', energies=en.tolist(), ground=E_gs)
+        if tol_split == 0:
+            ereq(abs(E1 - en[-1]) <= 1e-9 * scale, label + ': energy of the returned state differs from the last reported energy', state=E1, reported=float(en[-1]))
+        ereq(np.all(en >= E_gs - 1e-9 * scale), label + ': reported energy below the exact ground state energy of the sector', energies=en.tolist(), ground=E_gs)
         require(E1 >= E_gs - 1e-9 * scale, label + ': state energy below the exact ground state energy of the sector (state left its sector?)', E=E1, ground=E_gs)
-        if tol_split == 0 and energy_ok:
-            require(en[0] <= E_before + 1e-9 * scale, label + ': first reported energy exceeds the energy of the starting state', first=float(en[0]), start=E_before)
-            require(np.all(np.diff(en) <= 1e-9 * scale), label + ': reported energies are not non-increasing', energies=en.tolist())
-        if energy_ok:
+        if tol_split == 0:
+            ereq(en[0] <= E_before + 1e-9 * scale, label + ': first reported energy exceeds the energy of the starting state', first=float(en[0]), start=E_before)
+            ereq(np.all(np.diff(en) <= 1e-9 * scale), label + ': reported energies are not non-increasing', energies=en.tolist())
+        if excused:
+            rec.label('energy_clause_failure_attributed_to_known_finding')
+            rec.excluded_known += 1
+        else:
             rec.metric('variational_margin_violation', max(0.0, float(np.max(E_gs - en))) / scale)
         require(all(a.tobytes() == b.tobytes() for a, b in zip(H.A, HA0)), label + ': the Hamiltonian was modified')
         require(np.array_equal(psi.qD[0], q_first) and np.array_equal(psi.qD[-1], q_last), label + ': total quantum numbers of the state changed')
@@ -137,6 +147,24 @@ def gen_dmrg(draw, tier):
     return c
 
 
+def _attributing(fn):
+    """A failing clause is attributed to the known finding F5 only if its run-time signature was observed during the run."""
+    def wrapped(case, rec):
+        try:
+            fn(case, rec)
+        except Violation:
+            if 'lanczos_past_breakdown' in rec.labels and known_listed(ID, KEY_F5):
+                rec.label('failure_attributed_to_known_finding')
+                rec.excluded_known += 1
+                rec.nontrivial = False
+                return
+            raise
+    wrapped.__name__ = fn.__name__
+    wrapped.__doc__ = fn.__doc__
+    return wrapped
+
+
+@_attributing
 def check_converges(case, rec):
     H = build_ham(case['ham'])
     psi = build_mps(case['psi'])
@@ -170,9 +198,6 @@ def check_converges(case, rec):
             raise
     if mon.past_breakdown:
         rec.label('lanczos_past_breakdown')
-        if known_listed(ID, KEY_F5):
-            rec.excluded_known += 1
-            return
     require(np.all(np.diff(en) <= 1e-9 * scale), 'reported energies are not non-increasing', energies=np.asarray(en).tolist())
     require(np.all(np.asarray(en) >= E_gs - 1e-9 * scale), 'reported energy below the exact ground state energy', energies=np.asarray(en).tolist(), ground=E_gs)
     m = sector_mask(psi.qd, L, total)
@@ -221,6 +246,7 @@ def gen_converges(draw, tier):
     return c
 
 
+@_attributing
 def check_full_block(case, rec):
     """L = 2, two-site DMRG with zero split tolerance: the single two-site block is the whole state space, so with enough Lanczos
     iterations the local solve is a global Krylov solve and the first reported energy is the smallest eigenvalue reachable from
@@ -283,9 +309,6 @@ def check_full_block(case, rec):
     rec.label('start_' + kind, 'model_' + (case['ham'].get('model') or 'random'), 'krylov_dim=%d' % min(kdim, 6))
     if mon.past_breakdown:
         rec.label('lanczos_past_breakdown')
-        if known_listed(ID, KEY_F5):
-            rec.excluded_known += 1
-            return
     en = np.asarray(en)
     require(en.shape == (case['sweeps'],), 'wrong shape of the energy array', shape=en.shape)
     require(np.all(np.abs(en - target) <= 1e-8 * scale), 'two-site DMRG on L = 2 (block = whole space, enough iterations) did not reach the smallest eigenvalue reachable from the start vector',
